@@ -836,6 +836,7 @@ func doParent(spec Spec, tier string, seed int64, b time.Duration, nworkers int)
 	exit := 0
 	nViol := 0
 	nKnown := 0
+	var unconfirmed []string
 	for _, key := range vorder {
 		v := vio[key]
 		if k, ok := known[key]; ok {
@@ -869,8 +870,12 @@ func doParent(spec Spec, tier string, seed int64, b time.Duration, nworkers int)
 			continue
 		}
 		if !ok {
+			// A report that its own case descriptor does not reproduce in a fresh process (state carried over from
+			// an earlier case of the same worker, or a harness error). It is never printed as a VIOLATION; if another
+			// key of this run IS confirmed by three replays the run reports that one, otherwise it ends as a harness error.
 			fmt.Fprintf(os.Stderr, "NONDETERMINISM: %s\n  first report: %s\n  case: %s\n", why, v.What, string(v.Case))
-			return 2
+			unconfirmed = append(unconfirmed, key)
+			continue
 		}
 		sum := sha256.Sum256(append([]byte(key+"\x00"), v.Case...))
 		dir := filepath.Join(OutDir, "replays", spec.ID)
@@ -884,6 +889,12 @@ func doParent(spec Spec, tier string, seed int64, b time.Duration, nworkers int)
 		exit = 1
 	}
 
+	if len(unconfirmed) > 0 {
+		if nViol == 0 {
+			return 2
+		}
+		merged.Notes = append(merged.Notes, fmt.Sprintf("reports not reproduced by their own case descriptor in a fresh process (not alarmed; confirmed violations of this run are listed): %v", unconfirmed))
+	}
 	wall := time.Since(start).Seconds()
 	cov := map[string]any{
 		"evaluations":         merged.Evals,
